@@ -98,8 +98,8 @@ ENGINES = [
  {"name": "cli", "path": "harness/cli.go spec/CacheSeq.tla", "serves_properties": ["C19"], "kind_free_text": "built binaries run on model-enumerated populations; stdout/exit status vs library vs model"},
  {"name": "schema", "path": "tools/schema2tla.py spec/Schema.tla harness/schemaoracle.go", "serves_properties": ["C17", "C18"],
   "kind_free_text": "draft-07 subset evaluator in TLA+ over a module generated from the shipped schema files; documents by JSON mutation; all validator entry points"},
- {"name": "cacheauto", "path": "spec/CacheAuto.tla harness/autoreplay.go harness/reconf.go", "serves_properties": ["C11", "C20", "C01"],
-  "kind_free_text": "TLA+ model of the auto-refresh cache incl. kernel queues, goroutines and Configure; replay with a scheduler gate; resource probes"},
+ {"name": "cacheauto", "path": "spec/CacheAuto.tla spec/CacheAutoTrace.tla tools/autotrace.py harness/autoreplay.go harness/overflow.go harness/reconf.go", "serves_properties": ["C11", "C20", "C01"],
+  "kind_free_text": "TLA+ model of the auto-refresh cache incl. bounded kernel queues, fsnotify's reader, goroutines with a two-step critical section, Configure, descriptor shortage; replay with scheduler gates; recorded executions trace-validated by TLC; resource probes"},
  {"name": "cacheconc", "path": "spec/CacheConc.tla harness/stress.go", "serves_properties": ["C12"],
   "kind_free_text": "lock-discipline model + race-detector stress of TLC's client programs"},
  {"name": "specwrite", "path": "spec/SpecWrite.tla spec/FSTrace.tla harness/writer.go tools/strace2ndjson.py", "serves_properties": ["C10"],
@@ -110,8 +110,8 @@ ENGINES = [
   "kind_free_text": "grammar and annotation-map models over symbol strings, enumerated by TLC, evaluated on the parser and annotation helpers"},
  {"name": "edits", "path": "spec/Edits.tla spec/EditsApply.tla spec/EditsInject.tla harness/editsreplay.go harness/injectreplay.go", "serves_properties": ["C02", "C03", "C14"],
   "kind_free_text": "TLA+ oracle for container edits and injection, enumerated by TLC, replayed into the real code with real device nodes"},
- {"name": "cacheseq", "path": "spec/CacheSeq.tla spec/Resolve.tla spec/MCCacheSeq.tla harness/cachereplay.go", "serves_properties": ["C01", "C04", "C13", "C16"],
-  "kind_free_text": "TLA+ state machine of the manual-refresh cache, TLC exhaustive + simulate, behaviours replayed into the real cdi.Cache"},
+ {"name": "cacheseq", "path": "spec/CacheSeq.tla spec/Resolve.tla spec/MCCacheSeq.tla spec/RefreshTrace.tla spec/ScanInd.tla spec/SpecName.tla harness/cachereplay.go harness/specname.go harness/autorefresh.go", "serves_properties": ["C01", "C04", "C13", "C16"],
+  "kind_free_text": "TLA+ state machine of the manual-refresh cache, TLC exhaustive + simulate, behaviours replayed into the real cdi.Cache (permission faults as an unprivileged process); recorded refreshes trace-validated; inductive invariant of the scan by Apalache"},
 ]
 
 def main():
